@@ -130,4 +130,9 @@ theorem authorisation_never_cached :
     "AddBackend" ∈ cache_pureDelegations ∧ "DeleteBackend" ∈ cache_pureDelegations ∧
     "ListBackends" ∈ cache_pureDelegations ∧ "ListPendingRequests" ∈ cache_pureDelegations := by decide
 
+/-- T1: the ID under which an end-user request is stored (and under which its response is
+    looked up — responses are keyed by request ID alone) is App Engine's own request ID; a client
+    cannot choose it, so it cannot name another user's in-flight request. -/
+theorem request_id_not_client_controlled : app_requestIDSource = "appengine.RequestID(ctx)" := by decide
+
 end InvProxy.C17
